@@ -251,19 +251,24 @@ func runC11(c *Ctx) {
 		g := c.G(f)
 		var have = map[string]bool{}
 		for _, ex := range g.Returns() {
-			id, ok := ast.Unparen(ex.Return.Results[0]).(*ast.Ident)
-			if !ok || id.Name != "true" {
-				continue
-			}
-			for _, fct := range g.Facts(ex.Loc) {
-				if !fct.Val {
+			// conditions under which this return answers true: the tests passed on the way to a `return true`,
+			// and the returned expression itself when it is not a literal
+			facts := g.Facts(ex.Loc)
+			if id, ok := ast.Unparen(ex.Return.Results[0]).(*ast.Ident); ok && (id.Name == "true" || id.Name == "false") {
+				if id.Name == "false" {
 					continue
 				}
-				e := fct.Expr
-				if x, eq, isNil := core.IsNilCheck(info, e); isNil && eq && core.FieldVar(info, x) == m.fOptions {
-					have["torn-down"] = true
+			} else {
+				facts = []core.Fact{{Expr: ex.Return.Results[0], Val: true}}
+			}
+			for _, fct := range facts {
+				// terms with their polarity: a true disjunction proves nothing about one term, but every return
+				// below it is reached when any term holds; a false test is one negated term
+				type term struct {
+					e   ast.Expr
+					pol bool
 				}
-				var terms []ast.Expr
+				var terms []term
 				var split func(e ast.Expr)
 				split = func(e ast.Expr) {
 					if be, ok := ast.Unparen(e).(*ast.BinaryExpr); ok && be.Op == token.LOR {
@@ -271,16 +276,26 @@ func runC11(c *Ctx) {
 						split(be.Y)
 						return
 					}
-					terms = append(terms, e)
+					terms = append(terms, term{e, true})
 				}
-				split(e)
-				for _, t := range terms {
-					neg := false
-					if u, ok := ast.Unparen(t).(*ast.UnaryExpr); ok && u.Op == token.NOT {
-						neg = true
-						t = u.X
+				if fct.Val {
+					split(fct.Expr)
+				} else if be, isB := ast.Unparen(fct.Expr).(*ast.BinaryExpr); !isB || (be.Op != token.LAND && be.Op != token.LOR) {
+					terms = append(terms, term{fct.Expr, false})
+				}
+				for _, tm := range terms {
+					t, pol := tm.e, tm.pol
+					for {
+						u, ok := ast.Unparen(t).(*ast.UnaryExpr)
+						if !ok || u.Op != token.NOT {
+							break
+						}
+						t, pol = u.X, !pol
 					}
-					if call, ok := ast.Unparen(t).(*ast.CallExpr); ok && neg && core.CalleeName(info, call) == "reflect.DeepEqual" {
+					if x, eq, isNil := core.IsNilCheck(info, t); isNil && eq == pol && core.FieldVar(info, x) == m.fOptions {
+						have["torn-down"] = true
+					}
+					if call, ok := ast.Unparen(t).(*ast.CallExpr); ok && !pol && core.CalleeName(info, call) == "reflect.DeepEqual" {
 						a, b := call.Args[0], call.Args[1]
 						switch {
 						case selName(a) == "AdapterPaths" && selName(b) == "AdapterPaths" && core.ExprString(a) != core.ExprString(b):
@@ -295,7 +310,7 @@ func runC11(c *Ctx) {
 							}
 						}
 					}
-					if x, eq, isNil := core.IsNilCheck(info, t); isNil && !eq && len(core.CallsTo(info, x, false, "llm.LlamaServer.Ping")) == 1 {
+					if x, eq, isNil := core.IsNilCheck(info, t); isNil && eq != pol && len(core.CallsTo(info, x, false, "llm.LlamaServer.Ping")) == 1 {
 						have["ping"] = true
 					}
 				}
@@ -318,65 +333,129 @@ func runC11(c *Ctx) {
 	}
 
 	// ------------------------------------------------------------------ R5
-	c.Rule("C11-R5", "idle first: findRunnerToUnload collects every loaded runner under loadedMu, returns from a loop over all candidates the first whose refCount (read under its refMu) is zero, and falls back only after that loop")
+	c.Rule("C11-R5", "idle first: findRunnerToUnload collects every loaded runner under loadedMu (itself or through a helper that does nothing else), returns from a loop over all candidates the first whose refCount (read under its refMu) is zero, and falls back only after that loop")
 	if f := m.lc.fn("Scheduler.findRunnerToUnload"); f != nil {
 		g := c.G(f)
 		var listObj types.Object
 		okCollect, okLoop, okFallback := false, false, false
-		for _, rl := range rangeLoops(f) {
-			if core.FieldVar(info, rl.Stmt.X) == m.fLoaded {
-				// appends every element
-				ast.Inspect(rl.Stmt.Body, func(n ast.Node) bool {
-					if as, ok := n.(*ast.AssignStmt); ok && len(core.CallsTo(info, as, false, "builtin.append")) == 1 {
-						if vid, ok := rl.Stmt.Value.(*ast.Ident); ok && core.UsesObj(info, as.Rhs[0], info.Defs[vid]) {
-							if p := core.PathOf(info, as.Lhs[0]); p.Valid() {
-								listObj = p.Root
-								// unconditional: the append is the only statement / not under an if
-								if len(rl.Stmt.Body.List) == 1 && m.lc.heldAt(as).HasClass(m.fLoadedMu) {
-									okCollect = true
-								}
-							}
-						}
-					}
-					return true
-				})
-			}
+		// the list is filled in this function, or by a helper that does nothing else (snapshotCall)
+		listObj, okCollect = m.snapshotLocal(f)
+		// the scan: a range over the list, or an index loop over all of it with the element read from list[i]
+		var loopStmt ast.Stmt
+		var loopHead ast.Node
+		type scan struct {
+			stmt ast.Stmt
+			head ast.Node
+			elem types.Object
 		}
-		var loopStmt *ast.RangeStmt
+		var scans []scan
 		for _, rl := range rangeLoops(f) {
-			if rl.Over == nil || rl.Over != listObj {
+			if m.snapshotCall(rl.Stmt.X) {
+				okCollect = true // ranges over the helper's result directly
+			} else if rl.Over == nil || rl.Over != listObj {
 				continue
 			}
-			vid, _ := rl.Stmt.Value.(*ast.Ident)
+			if vid, _ := rl.Stmt.Value.(*ast.Ident); vid != nil {
+				scans = append(scans, scan{rl.Stmt, rl.Stmt.X, info.Defs[vid]})
+			} else {
+				scans = append(scans, scan{rl.Stmt, rl.Stmt.X, nil})
+			}
+		}
+		ast.Inspect(f.Body, func(n ast.Node) bool {
+			fs, ok := n.(*ast.ForStmt)
+			if !ok || fs.Init == nil || fs.Cond == nil || fs.Post == nil || listObj == nil {
+				return true
+			}
+			init, isAs := fs.Init.(*ast.AssignStmt)
+			post, isInc := fs.Post.(*ast.IncDecStmt)
+			cond, isB := ast.Unparen(fs.Cond).(*ast.BinaryExpr)
+			if !isAs || !isInc || !isB || post.Tok != token.INC || cond.Op != token.LSS || len(init.Lhs) != 1 || len(init.Rhs) != 1 {
+				return true
+			}
+			iv, isID := init.Lhs[0].(*ast.Ident)
+			if z, isC := core.ConstInt(info, init.Rhs[0]); !isID || !isC || z != 0 || !isIdentOf(info, post.X, info.ObjectOf(iv)) || !isIdentOf(info, cond.X, info.ObjectOf(iv)) {
+				return true
+			}
+			if p, isLen := isLenOf(info, cond.Y); !isLen || p.Root != listObj || len(p.Fields) != 0 {
+				return true
+			}
+			// elem := list[i]
+			var elem types.Object
+			ast.Inspect(fs.Body, func(x ast.Node) bool {
+				as, isA := x.(*ast.AssignStmt)
+				if !isA || len(as.Lhs) != 1 || len(as.Rhs) != 1 {
+					return true
+				}
+				ix, isIx := ast.Unparen(as.Rhs[0]).(*ast.IndexExpr)
+				if isIx && isIdentOf(info, ix.X, listObj) && isIdentOf(info, ix.Index, info.ObjectOf(iv)) {
+					if eid, isE := as.Lhs[0].(*ast.Ident); isE {
+						elem = info.ObjectOf(eid)
+					}
+				}
+				return true
+			})
+			scans = append(scans, scan{fs, fs.Cond, elem})
+			return true
+		})
+		// refCount is zero (nobody uses the runner) given that e evaluates to val; locals are followed to their definition
+		var idleFact func(e ast.Expr, val bool, elem types.Object, depth int) bool
+		idleFact = func(e ast.Expr, val bool, elem types.Object, depth int) bool {
+			e = ast.Unparen(e)
+			if id, isID := e.(*ast.Ident); isID && depth < 2 {
+				if v, isV := info.ObjectOf(id).(*types.Var); isV && !v.IsField() {
+					if rhs, idx, n := singleDef(info, f.Body, v); n == 1 && idx == -1 && rhs != nil {
+						return idleFact(rhs, val, elem, depth+1)
+					}
+				}
+				return false
+			}
+			be, ok := e.(*ast.BinaryExpr)
+			if !ok {
+				return false
+			}
+			k, isC := core.ConstInt(info, be.Y)
+			if !isC {
+				return false
+			}
+			zero := false
+			switch {
+			case (be.Op == token.EQL || be.Op == token.LEQ) && k == 0, be.Op == token.LSS && k == 1:
+				zero = val
+			case (be.Op == token.NEQ || be.Op == token.GTR) && k == 0, be.Op == token.GEQ && k == 1:
+				zero = !val
+			}
+			if !zero {
+				return false
+			}
+			// be.X is refCount directly or a local read from it under refMu
+			if core.FieldVar(info, be.X) == m.fRefCount {
+				return core.UsesObj(info, be.X, elem) && m.ownerLockHeld(be.X, m.fRefMu, be)
+			}
+			if id, ok := ast.Unparen(be.X).(*ast.Ident); ok {
+				for _, as := range g.AssignsTo(info.Uses[id]) {
+					if a2, ok := as.Node.(*ast.AssignStmt); ok && core.FieldVar(info, a2.Rhs[0]) == m.fRefCount &&
+						core.UsesObj(info, a2.Rhs[0], elem) && m.ownerLockHeld(a2.Rhs[0], m.fRefMu, a2) {
+						return true
+					}
+				}
+			}
+			return false
+		}
+		for _, sc := range scans {
 			for _, ex := range g.Returns() {
-				if !within(rl.Stmt, ex.Return) || vid == nil {
+				if !within(sc.stmt, ex.Return) || sc.elem == nil {
 					continue
 				}
-				if id, ok := ast.Unparen(ex.Return.Results[0]).(*ast.Ident); !ok || info.Uses[id] != info.Defs[vid] {
+				if id, ok := ast.Unparen(ex.Return.Results[0]).(*ast.Ident); !ok || info.Uses[id] != sc.elem {
 					continue
 				}
 				for _, a := range g.AtomsAt(ex.Loc) {
-					be, ok := ast.Unparen(a.Expr).(*ast.BinaryExpr)
-					if !ok || be.Op != token.EQL || !a.Val {
-						continue
-					}
-					if v, isC := core.ConstInt(info, be.Y); !isC || v != 0 {
-						continue
-					}
-					// be.X is refCount directly or a local read from it under refMu
-					if core.FieldVar(info, be.X) == m.fRefCount {
-						okLoop = m.ownerLockHeld(be.X, m.fRefMu, be)
-					} else if id, ok := ast.Unparen(be.X).(*ast.Ident); ok {
-						for _, as := range g.AssignsTo(info.Uses[id]) {
-							if a2, ok := as.Node.(*ast.AssignStmt); ok && core.FieldVar(info, a2.Rhs[0]) == m.fRefCount &&
-								core.UsesObj(info, a2.Rhs[0], info.Defs[vid]) && m.ownerLockHeld(a2.Rhs[0], m.fRefMu, a2) {
-								okLoop = true
-							}
-						}
+					if idleFact(a.Expr, a.Val, sc.elem, 0) {
+						okLoop = true
 					}
 				}
 			}
-			loopStmt = rl.Stmt
+			loopStmt, loopHead = sc.stmt, sc.head
 		}
 		// every return of a runner outside the idle scan comes after the whole scan
 		nFallback, early := 0, ""
@@ -385,7 +464,7 @@ func runC11(c *Ctx) {
 				continue
 			}
 			nFallback++
-			if !(g.Dominates(g.Locate(loopStmt.X), ex.Loc) && ex.Return.Pos() > loopStmt.End()) {
+			if !(g.Dominates(g.Locate(loopHead), ex.Loc) && ex.Return.Pos() > loopStmt.End()) {
 				early = c.Pos(ex.Return)
 			}
 		}
